@@ -430,7 +430,7 @@ def apply_params(sig, posargs, pokargs, varargs, kwoargs, varkwargs,
                       _stacklevel=_stacklevel + 1)
     if sources is not None:
         sig = Signature._upgrade(sig, function, sources, _stacklevel=1)
-        sig.sources = sources
+        sig.sources = copy_sources(sources)
     return sig
 
 
